@@ -52,7 +52,7 @@ func init() {
 			"external storage":                         "stub SimStorage (TTL on the coarse clock) with error injection, or the real in-repo internal/storage/memory, behind a key-copying wrapper; chosen per run",
 			"utils.Timestamp updater":                  "stub daemon on the simulated clock, random phase",
 			"browser cookie store":                     "stub harness.Browser (RFC 6265 subset, net/http response parser)",
-			"fasthttp accept loop / worker pool / TLS": "stub (harness.Conn, scheme via forwarded headers); codecs real",
+			"fasthttp accept loop / worker pool / TLS": "stub (harness.Conn, scheme via forwarded headers); codecs real; in 15 % of the runs fasthttp's real connection loop (ServeConn) serves the requests over a simulated connection with tape-chosen segmentation and short reads",
 		},
 	})
 }
